@@ -1,6 +1,6 @@
 (* Props/C10.v -- property C10: receive windows follow the regional parameters in force when the uplink was sent. *)
 From Coq Require Import NArith ZArith List Bool.
-From LoraV Require Import Base.Bytes Gen.RegionTables Model.Region Model.Mac Spec.RP002 Proofs.WindowProofs Model.AsyncDev Proofs.AsyncWindows Model.NbDev Proofs.NbWindows.
+From LoraV Require Import Base.Bytes Gen.RegionTables Model.Region Model.Mac Spec.RP002 Proofs.WindowProofs Model.AsyncDev Proofs.AsyncWindows Model.NbDev Proofs.NbWindows Crypto.CMAC Proofs.FrontEndExamples.
 Import ListNotations.
 Local Open Scope N_scope.
 
@@ -106,3 +106,13 @@ Section C10.
     m1 = m /\ m4 = m.
   Proof. exact (nb_class_a_window_schedule enc mac_fn). Qed.
 End C10.
+
+(* non-vacuity of the schedule theorems' premises, with the concrete AES-128 / CMAC: an ABP-joined EU868 device whose send succeeds and whose
+   run is the proved schedule (12 calls; RX1 at 1000 + 100 - 15 ms, RX2 one second later; RxComplete) *)
+Example C10_schedule_premises_met :
+  (exists o, send aes_enc aes_mac ex_mac [1; 2; 3] 7 false ex_draws = Val (SendOk o) /\ length (to_frame o) = 16%nat) /\
+  quiet ex_env /\ ad_lead ex_dev <= 100 /\
+  let '(_, e', r) := adev_send aes_enc aes_mac ex_dev ex_env [1; 2; 3] 7 false ex_draws in
+  length (e_trace e') = 12%nat /\ r = AOk RRxComplete /\
+  nth_error (rev (e_trace e')) 3 = Some (ATimerAt 1085) /\ nth_error (rev (e_trace e')) 8 = Some (ATimerAt 2085).
+Proof. split; [exact ex_send_succeeds|]. split; [exact (proj1 ex_quiet)|]. split; [exact (proj2 ex_quiet)|exact ex_schedule]. Qed.
